@@ -56,13 +56,13 @@ Call(p) ==
          [] o.op = "rel" ->
               LET i == Id(p, o.k) IN
               IF i \in Ids /\ st[i] \in {"held", "released"}
-              THEN /\ PRelCall(i)
-                   /\ status' = [status EXCEPT ![i] = 2]
+              THEN /\ status' = [status EXCEPT ![i] = 2]
                    /\ IF status[i] = 1
-                      THEN /\ pc' = [pc EXCEPT ![p] = "relcs"]
+                      THEN /\ PRelCall(i)
+                           /\ pc' = [pc EXCEPT ![p] = "relcs"]
                            /\ relid' = [relid EXCEPT ![p] = i]
                            /\ UNCHANGED ip
-                      ELSE /\ Advance(p) /\ UNCHANGED <<pc, relid>>
+                      ELSE /\ PRelNoop(i) /\ Advance(p) /\ UNCHANGED <<pc, relid>>
                    /\ UNCHANGED <<locked, wch, ctxc>>
               ELSE /\ Advance(p)
                    /\ UNCHANGED <<locked, wch, pc, status, ctxc, relid, pvars>>
@@ -112,7 +112,8 @@ RelCS(p) ==
     /\ pc' = [pc EXCEPT ![p] = "idle"]
     /\ Advance(p)
     /\ relid' = [relid EXCEPT ![p] = 0]
-    /\ UNCHANGED <<status, ctxc, pvars>>
+    /\ PRelRet(relid[p])
+    /\ UNCHANGED <<status, ctxc>>
 
 TryCS(p) ==
     /\ Gate
